@@ -1125,6 +1125,32 @@ def run_isrn(rep, C, w):
             rep.fail(f"{lab}/crp_xy/line-statistics-documented-NotImplemented", wit, "returned")
         except NotImplementedError:
             pass
+    # ---- the setters on one live network in alternating order, a later threshold triple repeating components of an
+    #      earlier one: every block follows the LAST request (compared with a newly constructed network)
+    thr = [v for k_, v, _via in w["variants"] if k_ == "threshold"]
+    rat = [v for k_, v, _via in w["variants"] if k_ == "recurrence_rate"]
+    if thr and rat:
+        rep.case()
+        t1 = list(thr[0])
+        t2 = [t1[0], t1[1], (thr[-1][2] if thr[-1][2] != t1[2] else t1[2] * 1.5 + 0.1)]
+        hist = [["threshold", t1], ["recurrence_rate", list(rat[0])], ["threshold", t2],
+                ["recurrence_rate", list(rat[-1])], ["recurrence_rate", [rat[-1][0], rat[0][1], rat[-1][2]]]]
+        wit = dict(w, variants=[[k_, v, "setter"] for k_, v in hist])
+        try:
+            live = cls(x, y, **kw, threshold=tuple(t1))
+            for step, (k_, v) in enumerate(hist[1:], 1):
+                getattr(live, SETTER[k_])(tuple(v))
+                fresh = cls(x, y, **kw, **{k_: tuple(v)})
+                for nm in ("rp_x", "rp_y", "crp_xy"):
+                    a_, b_ = np.asarray(getattr(live, nm).recurrence_matrix()), np.asarray(getattr(fresh, nm).recurrence_matrix())
+                    if a_.shape != b_.shape or (a_ != b_).any():
+                        rep.fail(f"{lab}/setter-history/{nm}-follows-last-request", wit,
+                                 f"after step {step} ({k_} {v}): {int((a_ != b_).sum()) if a_.shape == b_.shape else 'shape'} cells differ "
+                                 "from a newly constructed network")
+                if (np.asarray(live.adjacency) != np.asarray(fresh.adjacency)).any():
+                    rep.fail(f"{lab}/setter-history/adjacency-follows-last-request", wit, f"after step {step} ({k_} {v})")
+        except Exception as e:                                   # noqa: BLE001
+            rep.fail(f"{lab}/setter-history/constructible", wit, f"{type(e).__name__}: {e}")
 
 
 def run_normstatic(rep, C, w):
